@@ -130,6 +130,12 @@ func classify(h *History) facts {
 		}
 	}
 	for _, st := range h.Sc.Steps {
+		if st.Kind == StepConsume && st.D > 0 {
+			f.labels = append(f.labels, "consume_at_a_timer_instant")
+			break
+		}
+	}
+	for _, st := range h.Sc.Steps {
 		if st.Kind == StepCancel {
 			f.labels = append(f.labels, "cancel_step")
 			break
@@ -205,19 +211,19 @@ func sequentialScenario(sc *Scenario) bool {
 var specs = map[string]propSpec{
 	"C05": {
 		id:         "C05",
-		profile:    Profile{Gated: 30, AutoFail: true, Cancels: false, Shutdown: true, Conc: []int{0, 0, 1, 2}, EarlyPct: 40, SharedCtx: true, Concurrent: true, MetaPct: 25},
+		profile:    Profile{Gated: 30, AutoFail: true, Cancels: false, Shutdown: true, Conc: []int{0, 0, 1, 2}, EarlyPct: 40, SharedCtx: true, Concurrent: true, MetaPct: 25, DelayedConsume: 15},
 		verdict:    VerdictC05,
 		nontrivial: func(f facts, h *History) bool { return f.split || f.merged },
 	},
 	"C06": {
 		id:         "C06",
-		profile:    Profile{Gated: 70, HonourCancel: 30, AutoFail: true, Cancels: true, Deadlines: true, Shutdown: true, Conc: []int{0, 0, 1, 2, 3}, EarlyPct: 15, SharedCtx: true, Concurrent: true, MetaPct: 20},
+		profile:    Profile{Gated: 70, HonourCancel: 30, AutoFail: true, Cancels: true, Deadlines: true, Shutdown: true, Conc: []int{0, 0, 1, 2, 3}, EarlyPct: 15, SharedCtx: true, Concurrent: true, MetaPct: 20, DelayedConsume: 15},
 		verdict:    VerdictC06,
 		nontrivial: func(f facts, h *History) bool { return f.mixedOutcome || f.cancelPartial },
 	},
 	"C09": {
 		id:         "C09",
-		profile:    Profile{Gated: 0, Conc: []int{0}, EarlyPct: 30, Concurrent: true, MetaPct: 25},
+		profile:    Profile{Gated: 0, Conc: []int{0}, EarlyPct: 30, Concurrent: true, MetaPct: 25, DelayedConsume: 35},
 		verdict:    VerdictC09,
 		nontrivial: func(f facts, h *History) bool { return f.timerFlushAfterSize },
 	},
@@ -229,7 +235,7 @@ var specs = map[string]propSpec{
 	},
 	"C11": {
 		id:         "C11",
-		profile:    Profile{Gated: 85, HonourCancel: 30, Cancels: true, Deadlines: true, Shutdown: true, Conc: []int{0, 1, 1, 2, 3}, EarlyPct: 25, SharedCtx: true, Concurrent: true, MetaPct: 25},
+		profile:    Profile{Gated: 85, HonourCancel: 30, Cancels: true, Deadlines: true, Shutdown: true, Conc: []int{0, 1, 1, 2, 3}, EarlyPct: 25, SharedCtx: true, Concurrent: true, MetaPct: 25, DelayedConsume: 15},
 		verdict:    VerdictC11,
 		nontrivial: func(f facts, h *History) bool { return h.Sc.Gated && len(h.Exports) >= 2 },
 	},
